@@ -15,6 +15,7 @@
 number."""
 
 from __future__ import annotations
+import copy
 import dataclasses
 from pathlib import Path
 from types import TracebackType
@@ -171,9 +172,11 @@ class _DatasetFillerContext:
         current_progress.written_examples += 1
 
         # Update custom_metadata if needed (only after a successful write so
-        # that a rejected example leaves no trace).
+        # that a rejected example leaves no trace). Keep our own copy, the
+        # caller might modify or reuse the passed object.
         if custom_metadata:
-            current_progress.shard.shard_info.custom_metadata = custom_metadata
+            current_progress.shard.shard_info.custom_metadata = copy.deepcopy(
+                custom_metadata)
 
         # We have updated the current progress.
         assert self._current_shards_progress[split] == current_progress
